@@ -212,7 +212,7 @@ T("c17-twin-arange-flip-flip", "C17", (RU, "generate_front_move", "expr", "jnp.f
 
 # ---------------------------------------------------------------- C06
 B("c06-knapsack-no-fit-guard", "C06", "C06.R1", (P + "knapsack/env.py", "Knapsack.step", "expr", "item_fits & item_not_packed", "item_not_packed"))
-B("c06-cvrp-capacity-strict", "C06", "C06.R1", (R + "cvrp/env.py", "CVRP.step", "expr", "state.capacity >= state.demands[action]", "state.capacity + 1 >= state.demands[action]"))
+B("c06-cvrp-capacity-strict", "C06", "C06.R1", (R + "cvrp/env.py", "CVRP.step", "expr", "state.capacity >= node_demand", "state.capacity + 1 >= node_demand"))
 B("c06-tsp-revisit", "C06", "C06.R2", (R + "tsp/env.py", "TSP.step", "expr", "~state.visited_mask[action]", "~state.visited_mask[0]"))
 B("c06-knapsack-budget-init", "C06", "C06.R1", (P + "knapsack/generator.py", "RandomGenerator.__call__", "expr", "jnp.array(self.total_budget, float)", "jnp.array(2 * self.total_budget, float)"))
 B("c06-sudoku-box-table", "C06", "C06.R3", (L + "sudoku/constants.py", "", "expr", "[6, 7, 8, 15, 16, 17, 24, 25, 26]", "[6, 7, 8, 15, 16, 17, 24, 25, 27]"))
@@ -229,3 +229,6 @@ B("c10-minesweeper-replace", "C10", "C10.R2", (L + "minesweeper/utils.py", "crea
 B("c10-lbf-agents-replace", "C10", "C10.R2", (R + "lbf/generator.py", "RandomGenerator", "kwarg", "replace", "False", "True"))
 B("c10-knapsack-weights-range", "C10", "C10.R3", (P + "knapsack/generator.py", "RandomGenerator.__call__", "kwarg", "maxval", "1", "2"))
 T("c10-twin-split-more", "C10", (R + "tsp/generator.py", "UniformGenerator.__call__", "expr", "jax.random.split(key)", "jax.random.split(key, 2)"))
+B("c04-connector-mask-stricter", "C04", "C04.R3b", (R + "connector/utils.py", "is_valid_position", "expr", "in_bounds & open_cell & not_connected", "in_bounds & open_cell"),
+  (R + "connector/env.py", "Connector._get_action_mask", "expr", "is_valid_position(grid, agent, agent_pos)", "is_valid_position(grid, agent, agent_pos) & ~agent.connected"))
+B("c04-connector-step-stricter", "C04", "C04.R3b", (R + "connector/env.py", "Connector._step_agent", "expr", "action != NOOP", "action > NOOP + 1"))
